@@ -50,7 +50,8 @@ def step (st : St) (line : String) : St × String :=
       | some s, _ => s!"BAD span misaligned/too small/corrupted: tid={s.tid} addr={toHex s.addr} size={s.size} req={s.requested} ok={s.contentOk}"
       | none, some (a, b) => s!"BAD overlapping live spans: tid={a.tid} addr={toHex a.addr} size={a.size} [{a.t0},{a.t1}] and tid={b.tid} addr={toHex b.addr} size={b.size} [{b.t0},{b.t1}]"
       | none, none =>
-        if rest.contains "final_allocations=0" then s!"good spans={n} lin={lin.length}" else "BAD allocations remain accounted after everything was released: " ++ " ".intercalate rest
+        if !rest.contains "errors=0" then "BAD valid operations failed or answered wrongly (shared or private allocator, runtime add/release): " ++ " ".intercalate rest
+        else if rest.contains "final_allocations=0" then s!"good spans={n} lin={lin.length}" else "BAD allocations remain accounted after everything was released: " ++ " ".intercalate rest
     ({ st with spans := [], lin := [], po := [] }, verdict)
   | _ => (st, "bad-op")
 
